@@ -7,6 +7,7 @@ package dyn
 import (
 	"fmt"
 	"math"
+	"sync/atomic"
 	"unsafe"
 
 	"golang.org/x/exp/constraints"
@@ -214,6 +215,7 @@ type typeOps struct {
 	nilSl      func() Sl
 	newPool    func(a signal.Allocator) Pool
 	newStriped func(lens []int) Striped
+	zero       func() Buf
 }
 
 type pairOps struct {
@@ -235,6 +237,9 @@ var (
 
 // Alloc calls signal.Alloc[T].
 func Alloc(t int, a signal.Allocator) Buf { return tops[t].alloc(a) }
+
+// ZeroBuf is new(signal.Buffer[T]): the zero value of the buffer type, made without an allocator.
+func ZeroBuf(t int) Buf { return tops[t].zero() }
 
 // NewSl makes a []T of length n (non-nil, also for n = 0); NilSl a nil []T.
 func NewSl(t, n int) Sl { return tops[t].newSl(n) }
@@ -274,6 +279,7 @@ func regType[T signal.SignalTypes](name string, k Kind, bits int, named bool) in
 		nilSl:      func() Sl { return slW[T]{nil, t, k} },
 		newPool:    func(a signal.Allocator) Pool { p := signal.PoolAlloc[T](a); return poolW[T]{&p, t, k} },
 		newStriped: func(lens []int) Striped { return mkStriped[T](t, lens) },
+		zero:       func() Buf { return bufW[T]{new(signal.Buffer[T]), t, k} },
 	})
 	return t
 }
@@ -331,12 +337,26 @@ func regConv[S, D signal.SignalTypes](s, d int, name string, f func(*signal.Buff
 				// the destination starts out holding garbage: a conversion must overwrite it
 				d2.SetSample(i, sentinel)
 			}
-			f(s2, d2)
+			guarded(name, func() { f(s2, d2) })
 			for i := range in {
 				out[i] = toVal(d2.Sample(i), dk).B
 			}
 		}
 	}
+}
+
+// LibraryPanic holds the first panic of a conversion called on valid buffers by a block function
+// (the destination then keeps the garbage it was pre-filled with, which the oracles report; this note
+// says why).
+var LibraryPanic atomic.Value
+
+func guarded(name string, f func()) {
+	defer func() {
+		if r := recover(); r != nil {
+			LibraryPanic.CompareAndSwap(nil, fmt.Sprintf("%s panicked on buffers of equal channel count: %v", name, r))
+		}
+	}()
+	f()
 }
 
 // ConvBlock returns a function that converts up to n raw sample values (Val.B of the
@@ -574,21 +594,69 @@ func init() {
 	fromFloat[float32](Float32)
 	fromFloat[float64](Float64)
 
-	// four named types take part in reads, writes and conversions as well
-	n16, nu8, nf32, nf64 := typeID("MyInt16"), typeID("MyUint8"), typeID("MyFloat32"), typeID("MyFloat64")
-	NamedIO = []int{n16, nu8, nf32, nf64}
-	ioWithBuiltins[MyInt16](n16)
-	ioWithBuiltins[MyUint8](nu8)
-	ioWithBuiltins[MyFloat32](nf32)
-	ioWithBuiltins[MyFloat64](nf64)
-	fromSigned[MyInt16](n16)
-	fromUnsigned[MyUint8](nu8)
-	fromFloat[MyFloat32](nf32)
-	fromFloat[MyFloat64](nf64)
-	toNamedSigned[MyInt16](n16)
-	toNamedUnsigned[MyUint8](nu8)
-	toNamedFloat[MyFloat32](nf32)
-	toNamedFloat[MyFloat64](nf64)
+	// every named type takes part in reads, writes and conversions as well (against every built-in type,
+	// in both directions)
+	namedSigned[MyInt8]("MyInt8")
+	namedSigned[MyInt16]("MyInt16")
+	namedSigned[MyInt32]("MyInt32")
+	namedSigned[MyInt64]("MyInt64")
+	namedSigned[MyInt]("MyInt")
+	namedUnsigned[MyUint8]("MyUint8")
+	namedUnsigned[MyUint16]("MyUint16")
+	namedUnsigned[MyUint32]("MyUint32")
+	namedUnsigned[MyUint64]("MyUint64")
+	namedUnsigned[MyUint]("MyUint")
+	namedUnsigned[MyUintptr]("MyUintptr")
+	namedFloat[MyFloat32]("MyFloat32")
+	namedFloat[MyFloat64]("MyFloat64")
+
+	// Thirteen more named types, one per built-in type, that all carry the SAME name: each is declared
+	// in its own function scope, so they are distinct types that reflect prints alike ("dyn.Sample").
+	// They take part wherever a check ranges over all of Types (allocation, C13; Scale, C16): Types[2*NB:].
+	regLocalTypes(ws)
+}
+
+func namedSigned[N constraints.Signed](name string) {
+	n := typeID(name)
+	NamedIO = append(NamedIO, n)
+	ioWithBuiltins[N](n)
+	fromSigned[N](n)
+	toNamedSigned[N](n)
+}
+
+func namedUnsigned[N constraints.Unsigned](name string) {
+	n := typeID(name)
+	NamedIO = append(NamedIO, n)
+	ioWithBuiltins[N](n)
+	fromUnsigned[N](n)
+	toNamedUnsigned[N](n)
+}
+
+func namedFloat[N constraints.Float](name string) {
+	n := typeID(name)
+	NamedIO = append(NamedIO, n)
+	ioWithBuiltins[N](n)
+	fromFloat[N](n)
+	toNamedFloat[N](n)
+}
+
+func regLocalTypes(ws int) {
+	func() { type Sample int8; regType[Sample]("Sample(int8)", Signed, 8, true) }()
+	func() { type Sample int16; regType[Sample]("Sample(int16)", Signed, 16, true) }()
+	func() { type Sample int32; regType[Sample]("Sample(int32)", Signed, 32, true) }()
+	func() { type Sample int64; regType[Sample]("Sample(int64)", Signed, 64, true) }()
+	func() { type Sample int; regType[Sample]("Sample(int)", Signed, ws, true) }()
+	func() { type Sample uint8; regType[Sample]("Sample(uint8)", Unsigned, 8, true) }()
+	func() { type Sample uint16; regType[Sample]("Sample(uint16)", Unsigned, 16, true) }()
+	func() { type Sample uint32; regType[Sample]("Sample(uint32)", Unsigned, 32, true) }()
+	func() { type Sample uint64; regType[Sample]("Sample(uint64)", Unsigned, 64, true) }()
+	func() { type Sample uint; regType[Sample]("Sample(uint)", Unsigned, ws, true) }()
+	func() {
+		type Sample uintptr
+		regType[Sample]("Sample(uintptr)", Unsigned, int(unsafe.Sizeof(uintptr(0)))*8, true)
+	}()
+	func() { type Sample float32; regType[Sample]("Sample(float32)", Float, 32, true) }()
+	func() { type Sample float64; regType[Sample]("Sample(float64)", Float, 64, true) }()
 }
 
 // Try runs f and reports whether it panicked.
